@@ -260,6 +260,33 @@ func runC16(c *Ctx) {
 		}
 		return true
 	})
+	// the same comparisons written as one boolean expression, a switch, or early `return a != b`: read them off the
+	// paths that return true
+	{
+		den := &denum{info: p.TypesInfo, pkg: p.Types, inits: map[types.Object]ast.Expr{}, limit: 20000, opaqueLoops: true}
+		den.finish(den.run(hc.Body.List, []dstate{{env: map[types.Object]ast.Expr{}}}))
+		if den.undecided == "" {
+			for _, pth := range den.paths {
+				if pth.Ret == nil || len(pth.Ret.Results) != 1 || types.ExprString(pth.Ret.Results[0]) != "true" {
+					continue
+				}
+				for _, pc := range pth.Conds {
+					be, ok := ast.Unparen(pc.Expr).(*ast.BinaryExpr)
+					if !ok {
+						continue
+					}
+					differs := (be.Op == token.NEQ && pc.Val) || (be.Op == token.EQL && !pc.Val)
+					if !differs {
+						continue
+					}
+					a, b := norm(be.X), norm(be.Y)
+					if a != "" && a == b {
+						compared[a] = true
+					}
+				}
+			}
+		}
+	}
 	// (a) options read by emitting functions
 	g := c.gem()
 	optRead := map[string]bool{}
